@@ -110,8 +110,18 @@ inductive TStep (c : Cfg) (s : State) (t : Nat) : State → Prop
                            joinBad := s.joinBad || snap.any (fun tk => decide (s.ncons ≤ tk)) }
   | joinSpin (snap : List Nat) : s.pc t = .j0 snap → s.events ≠ 0 → TStep c s t s
 
+theorem nowrap_of {c : Cfg} {s : State} (h : (s.wrapped || decide (2 ^ c.evBits ≤ s.events + signalInc)) = false) :
+    (s.events + signalInc) % 2 ^ c.evBits = s.events + 1 ∧
+    (s.wrapped || decide (2 ^ c.evBits ≤ s.events + signalInc)) = s.wrapped := by
+  simp only [Bool.or_eq_false_iff, signalInc_eq] at h
+  have h2 : s.events + 1 < 2 ^ c.evBits := by
+    have := of_decide_eq_false h.2; omega
+  refine ⟨by rw [signalInc_eq]; exact Nat.mod_eq_of_lt h2, ?_⟩
+  rw [signalInc_eq, h.1]; simp; omega
+
+/-- (for steps that do not overflow `_events`; the `TStep` leaves use unbounded arithmetic) -/
 theorem stepThread_tstep {c : Cfg} {s s' : State} {t : Nat} {inp : Inp} {l : Label}
-    (h : stepThread c s t inp = some (s', l)) : TStep c s t s' := by
+    (h : stepThread c s t inp = some (s', l)) (hw : s'.wrapped = false) : TStep c s t s' := by
   unfold stepThread at h
   cases hpc : s.pc t <;> rw [hpc] at h <;> simp only at h
   case idle => simp at h
@@ -131,10 +141,14 @@ theorem stepThread_tstep {c : Cfg} {s s' : State} {t : Nat} {inp : Inp} {l : Lab
     · rename_i h0
       simp only [Option.some.injEq, Prod.mk.injEq] at h
       obtain ⟨rfl, _⟩ := h
+      obtain ⟨h1, h2⟩ := nowrap_of hw
+      rw [h1, h2]
       exact TStep.signalLaunch otk hpc h0
     · rename_i h0
       simp only [Option.some.injEq, Prod.mk.injEq] at h
       obtain ⟨rfl, _⟩ := h
+      obtain ⟨h1, h2⟩ := nowrap_of hw
+      rw [h1, h2]
       exact TStep.signalRet otk hpc h0
   case pLaunch ev otk =>
     split at h
@@ -235,9 +249,9 @@ inductive AnyStep (c : Cfg) (s : State) : State → Prop
   | join (t : Nat) : s.pc t = .idle → AnyStep c s (callJoin s t)
   | start (t : Nat) : s.pc t = .idle → 0 < s.launched → AnyStep c s (startWorker s t)
 
-theorem Step.any {c : Cfg} {s s' : State} (h : Step c s s') : AnyStep c s s' := by
+theorem Step.any {c : Cfg} {s s' : State} (h : Step c s s') (hw : s'.wrapped = false) : AnyStep c s s' := by
   cases h with
-  | act t inp s' l h => exact .thread t s' (stepThread_tstep h)
+  | act t inp s' l h => exact .thread t s' (stepThread_tstep h hw)
   | execute t v h => exact .execute t v h
   | signal t h => exact .signal t h
   | join t h => exact .join t h
